@@ -69,6 +69,45 @@ def main():
                 e["active"] = [424242]
                 return
 
+    # the channel model (TraceChan.tla) is bound to the hook events in the same way: one push removed, one
+    # command kind changed, a drain removed - each must be reported as drift
+    def chan(name, fn, want):
+        ls = copy.deepcopy(lines)
+        fn(ls)
+        p = os.path.join(E.OUT, "replay", "selftest", "corrupt-%s.ndjson" % name)
+        open(p, "w").write("\n".join(json.dumps(e, separators=(",", ":")) for e in ls) + "\n")
+        before = len(E.CHAN["drift"])
+        E.validate(p, "selftest-" + name, parts=1)
+        got = sorted({d["w"] for d in E.CHAN["drift"][before:]})
+        good = want in got
+        print("selftest %-22s -> %s %s" % (name, got, "ok" if good else "NOT REPORTED AS %s" % want))
+        return good
+
+    pushes = [i for i, e in enumerate(lines) if e["ev"] == "push" and e.get("kind") == "submit"]
+    commits = [i for i, e in enumerate(lines) if e["ev"] == "push" and e.get("kind") == "commit"]
+    drains = [i for i, e in enumerate(lines) if e["ev"] == "drain" and e.get("t")]
+
+    def push_removed(ls):
+        del ls[pushes[0]]
+
+    def kind_changed(ls):
+        ls[commits[0]]["kind"] = "drop"
+
+    def drain_removed(ls):
+        del ls[drains[0]]
+
+    if E.CHAN["drift"]:
+        print("selftest: the unchanged trace drifts from the channel model:", E.CHAN["drift"][:3])
+        return 1
+    chan_ok = all([
+        chan("chan-push-removed", push_removed, "batch-is-not-what-was-drained"),
+        chan("chan-kind-changed", kind_changed, "batch-is-not-what-was-drained"),
+        chan("chan-drain-removed", drain_removed, "batch-is-not-what-was-drained"),
+    ])
+    E.CHAN["drift"].clear()
+    if not chan_ok:
+        return 1
+
     ok = all([
         corrupt("parent-id", parent, "C02"),
         corrupt("report-removed", drop_report, "C01"),
